@@ -11,7 +11,7 @@ VARIABLE hist
 
 KeyRec(k) == [n |-> k[1], m |-> k[2], p |-> k[3]]
 Obs == [st |-> st', active |-> active', restart |-> restart',
-        cache |-> SetToSeq({KeyRec(k) @@ [en |-> cache'[k]] : k \in Keys}),
+        cache |-> SetToSeq({KeyRec(k) @@ [en |-> cache'[k], vis |-> Visible(k)] : k \in Keys}),
         rep |-> last'.rep, routed |-> last'.routed,
         out |-> SetToSeq({[c |-> c] @@ KeyRec(k) @@ [seq |-> last'.out[c][k]] :
                             c \in Conns, k \in {j \in Keys : \E d \in Conns : last'.out[d][j] # <<>>}}),
